@@ -16,7 +16,7 @@
 (* Every reachable state (EmitAll) or every full-length state is printed   *)
 (* as one CASE line; the harness replays it into glas' LineMap.            *)
 (***************************************************************************)
-EXTENDS Naturals, Sequences, FiniteSets, TLC, Json
+EXTENDS Naturals, Sequences, FiniteSets, TLC, Json, IOUtils
 
 CONSTANTS MaxLen,      \* documents up to this many characters
           EmitAll      \* TRUE: print every reachable document (BFS); FALSE: only full-length ones
@@ -26,6 +26,10 @@ Alphabet == {"a", "nl", "c2", "c3", "c4"}
 
 Utf8Len(c)  == CASE c = "a" -> 1 [] c = "nl" -> 1 [] c = "c2" -> 2 [] c = "c3" -> 3 [] c = "c4" -> 4
 Utf16Len(c) == IF c = "c4" THEN 2 ELSE 1
+\* The unit columns are counted in is negotiated (LSP 3.17: general.positionEncodings / capabilities.positionEncoding),
+\* UTF-16 unless both sides agree otherwise.  Environment POS_ENC selects the encoding the tables are written for.
+Enc == IF "POS_ENC" \in DOMAIN IOEnv THEN IOEnv.POS_ENC ELSE "utf-16"
+ColLen(c) == CASE Enc = "utf-8" -> Utf8Len(c) [] Enc = "utf-32" -> 1 [] OTHER -> Utf16Len(c)
 
 VARIABLES doc,   \* the characters typed so far
           tab    \* tab[i+1] = [b |-> byte, l |-> line, c |-> utf16 col] of boundary i, i \in 0..Len(doc)
@@ -38,7 +42,7 @@ Init == /\ doc = <<>>
 \* the client's cursor after typing character ch at the end of the text
 Step(last, ch) ==
     IF ch = "nl" THEN [b |-> last.b + 1, l |-> last.l + 1, c |-> 0]
-    ELSE [b |-> last.b + Utf8Len(ch), l |-> last.l, c |-> last.c + Utf16Len(ch)]
+    ELSE [b |-> last.b + Utf8Len(ch), l |-> last.l, c |-> last.c + ColLen(ch)]
 
 Type(ch) == /\ Len(doc) < MaxLen
             /\ doc' = Append(doc, ch)
@@ -53,7 +57,7 @@ Spec == Init /\ [][Next]_vars
 
 RECURSIVE Sum8(_, _, _), Sum16(_, _, _)
 Sum8(d, lo, hi)  == IF lo > hi THEN 0 ELSE Utf8Len(d[lo]) + Sum8(d, lo + 1, hi)
-Sum16(d, lo, hi) == IF lo > hi THEN 0 ELSE Utf16Len(d[lo]) + Sum16(d, lo + 1, hi)
+Sum16(d, lo, hi) == IF lo > hi THEN 0 ELSE ColLen(d[lo]) + Sum16(d, lo + 1, hi)
 
 ByteOf(d, i) == Sum8(d, 1, i)
 LineOf(d, i) == Cardinality({k \in 1..i : d[k] = "nl"})
@@ -79,6 +83,14 @@ PositionsInjective ==
     \A i, j \in 1..Len(tab) : (tab[i].l = tab[j].l /\ tab[i].c = tab[j].c) => i = j
 
 -----------------------------------------------------------------------------
+\* The document as a (meaningless) Gleam module: a run of "a" is one name, every other character one foreign character,
+\* each a token of its own that is no statement - the server reports one syntax error per token, whose range is the token.
+\* Toks = the (start boundary, end boundary) pairs of those tokens: what publishDiagnostics must name, as positions of tab.
+TokStarts(d) == {i \in 1..Len(d) : d[i] # "nl" /\ (d[i] # "a" \/ i = 1 \/ d[i - 1] # "a")}
+TokEnd(d, i) == IF d[i] # "a" THEN i
+                ELSE CHOOSE j \in i..Len(d) : (\A k \in i..j : d[k] = "a") /\ (j = Len(d) \/ d[j + 1] # "a")
+Toks(d) == {<<i - 1, TokEnd(d, i)>> : i \in TokStarts(d)}
+
 Emit == (EmitAll \/ Len(doc) = MaxLen) =>
-           PrintT(<<"CASE", ToJson([doc |-> doc, tab |-> tab])>>)
+           PrintT(<<"CASE", ToJson([doc |-> doc, tab |-> tab, toks |-> Toks(doc), enc |-> Enc])>>)
 =============================================================================
